@@ -13,7 +13,7 @@
    `passive_cfg c` / `passive_dq s`: no callback of the configuration / of the queued deferred
    functions has a scheduling action.  Ghost events: `EvPop e rest` (e popped, rest stayed queued),
    `EvInst i auto` (install_task succeeded for i; auto = re-install of a recurring task by process_task). *)
-From Bac Require Import Base Deferred DeferredFacts Sched SchedFacts SchedThms SchedPassive SchedOrder SchedRun SchedC14.
+From Bac Require Import Base Deferred DeferredFacts Sched SchedFacts SchedThms SchedPassive SchedOrder SchedRun SchedC14 SchedIv SchedIvFacts DeferredExn DeferredExnFacts.
 From Coq Require Import Permutation Sorted.
 Open Scope Z_scope.
 
@@ -194,3 +194,82 @@ Example C14_ex_deferred :
   drain_all true [DF 0 true [DF 2 false [] []] []; DF 1 false [DF 3 true [] []] [ASuspend 0]]
   = ([DF 0 true [DF 2 false [] []] []; DF 1 false [DF 3 true [] []] [ASuspend 0]; DF 2 false [] []; DF 3 true [] []], [], DDone).
 Proof. vm_compute. reflexivity. Qed.
+
+(* ---- round 4: exception values, interval / offset of a recurring task as attributes ---- *)
+
+(* the drain loop with exception VALUES and kinds of callable (DeferredExn.v), handler of the tree
+   (`h_code`: hands `err` to the logger, looks at neither err.args nor fn): for every batch, whatever
+   each member raises (no arguments, several, unprintable, any class) and whatever callable it is,
+   every function handed over is called once, in submission order, and the queue ends empty *)
+Theorem C14_exception_values_isolated : forall q,
+  exists L, xdrain_all h_code q = (L, [], DDone) /\
+            map xerase L = map xerase q ++ flat_map d_spawns (map xerase L) /\
+            Permutation (map xerase L) (f_all (map xerase q)).
+Proof. exact c14_exception_values_isolated. Qed.
+Print Assumptions C14_exception_values_isolated.
+
+(* ... and that is exactly the handlers that never raise: a handler that raises on some (callable,
+   exception value) loses a function of a batch of two *)
+Theorem C14_isolation_iff_handler_total : forall h : handler,
+  (forall k e, h k e = false) <-> (forall q, exists L, xdrain_all h q = (L, [], DDone)).
+Proof. exact isolation_iff_handler_total. Qed.
+Print Assumptions C14_isolation_iff_handler_total.
+
+Theorem C14_handler_raises_refuted : forall (h : handler) k e, h k e = true ->
+  exists q d, In d q /\ (let '(c, r, s) := xdrain_all h q in ~ In d c /\ ~ In d r /\ s = DRaised).
+Proof. exact handler_must_be_total. Qed.
+Print Assumptions C14_handler_raises_refuted.
+
+(* RecurringTask.taskInterval / taskIntervalOffset as attributes (SchedIv.v).  After ANY history — any
+   operations of Sched.v (suspend, resume, install_task(), firings, raising or scheduling callbacks) and any
+   install_task(interval=, offset=) calls, refused or not — the attributes are those of `attrs_after`
+   (the last value handed over, else the constructor's), and install_task(interval=, offset=) then either
+   is refused (interval in force unset / <= 0; schedule untouched) or leaves the task's entry at the
+   least slot of the interval / offset IN FORCE strictly after now *)
+Theorem C14_recurring_interval_in_force : forall guard jit c ctor ops m s ev i oiv ooff m' s' ev',
+  0 <= jit -> is_rec c i = true ->
+  run_ops2 guard jit c (attrs0 ctor, st0) ops = ((m, s), ev) ->
+  step2 guard jit c (m, s) (InstallIv i oiv ooff) = ((m', s'), ev') ->
+  m = attrs_after c (attrs0 ctor) ops /\
+  m' = set_attrs m i oiv ooff /\
+  (if iv_force m' i <=? 0 then s' = s /\ ev' = [EvErr RuntimeErr]
+   else let t := next_slot jit (iv_force m' i) (off_force m' i) (now s) in
+        ttime s' i = Some t /\ In (t, ctr s, i) (heap s') /\ ev' = [EvInst i false] /\
+        now s < t /\ (t - off_force m' i) mod (iv_force m' i) = 0).
+Proof. exact c14_recurring_interval_in_force. Qed.
+Print Assumptions C14_recurring_interval_in_force.
+
+(* the attributes of task i after a history ending in calls that are not install_task(interval=, offset=)
+   of task i: the last values handed over *)
+Theorem C14_recurring_attrs_last : forall c i pre oiv ooff post m, is_rec c i = true ->
+  (forall j a b, In (InstallIv j a b) post -> j <> i) ->
+  attrs_after c m (pre ++ InstallIv i oiv ooff :: post) i =
+    (merge oiv (fst (attrs_after c m pre i)), merge ooff (snd (attrs_after c m pre i))).
+Proof. exact attrs_after_last. Qed.
+Print Assumptions C14_recurring_attrs_last.
+
+(* install_task() (history operation, callback action, automatic re-install): slot of the attributes in force.
+   _partial: stated per installation; the trace-level form (every EvFire of a recurring task lies on the grid in
+   force when its entry was queued, through callbacks and both loops) is not proved — it needs the generic
+   preservation principle of SchedFacts.v with an install hypothesis that knows the time being set *)
+Theorem C14_recurring_reinstall_in_force_partial : forall jit c m s i s', is_rec c i = true ->
+  do_reinstall jit (eff c m) s i = Ok s' ->
+  0 < iv_force m i /\ ttime s' i = Some (next_slot jit (iv_force m i) (off_force m i) (now s)).
+Proof. exact reinstall_uses_in_force. Qed.
+Print Assumptions C14_recurring_reinstall_in_force_partial.
+
+(* constructed with 0.1 s, installed with 0.25 s + 20 ms, suspended, installed again with the offset reset to 0
+   (1 tick = 1/3 us): slots 0.02 s, 0.27 s, then 0.5 s (next: 0.75 s); the attributes end as (0.25 s, 0) *)
+Example C14_ex_interval_in_force :
+  canon_run2 1 (run_ops2 true 3 [mkT (Recurring 300000 0) false [] []] (attrs0 [(Some 300000, None)], st0)
+     [Plain (Advance 777); InstallIv 0 (Some 750000) (Some 60000); Plain ToDue; Plain Poll; Plain ToDue; Plain Poll;
+      Plain (Suspend 0); InstallIv 0 None (Some 0); Plain ToDue; Plain Poll])
+  = [3; 1; 0; 60000; 60000; 1; 0; 810000; 810000; 1; 0; 1500000; 1500000;
+     1; 2250000; 4; 0; 5; 1500000; 1; 1; 2250000; 0; 1; 750000; 1; 0].
+Proof. vm_compute. reflexivity. Qed.
+Example C14_ex_exception_values :
+  xdrain_all h_code [XF 0 KPartial (Some (mkExn 1 [] true)) [XF 2 KCallable (Some (mkExn 2 [7; 8] false)) [] []] []; XF 1 KFunction None [] []]
+  = ([XF 0 KPartial (Some (mkExn 1 [] true)) [XF 2 KCallable (Some (mkExn 2 [7; 8] false)) [] []] []; XF 1 KFunction None [] [];
+      XF 2 KCallable (Some (mkExn 2 [7; 8] false)) [] []], [], DDone)
+  /\ h_first_arg KFunction (mkExn 0 [] true) = true /\ h_fn_name KPartial (mkExn 0 [1] true) = true.
+Proof. vm_compute. repeat split. Qed.
